@@ -53,6 +53,9 @@ pub enum How {
     Complete,
     ExtComplete,
     FragOn(u8),
+    /// first fragment into a 10-byte buffer: only possible when the label takes no room on the wire (re-use substitution,
+    /// broadcast); leaves 5 of the 8 PDU bytes for later (fewer than a 6-byte label is long)
+    FragTight(u8),
     ExtFragOn(u8),
     FailSmall,
     FailLong,
@@ -103,6 +106,11 @@ impl System for ASys {
         let mut v = vec![];
         for &l in &self.labels {
             for &h in &self.hows {
+                // the tight first fragment is only interesting (and only possible with payload) when the 6-byte label is
+                // replaced by re-use; trains without label bytes from two different ops would also be byte-identical
+                if matches!(h, How::FragTight(_)) && l != L6A {
+                    continue;
+                }
                 v.push(AOp::Send(l, h));
             }
         }
@@ -142,6 +150,10 @@ impl System for ASys {
                     }
                     How::FragOn(f) => {
                         let mut b = vec![0u8; 15];
+                        (do_encap(&mut n.enc, &PDU_F, *f, 0x0800, l, &mut b), b, &PDU_F, *f)
+                    }
+                    How::FragTight(f) => {
+                        let mut b = vec![0u8; 10];
                         (do_encap(&mut n.enc, &PDU_F, *f, 0x0800, l, &mut b), b, &PDU_F, *f)
                     }
                     How::ExtFragOn(f) => {
@@ -526,7 +538,7 @@ pub fn a_sys(thorough: bool) -> ASys {
     ASys {
         labels: if thorough { vec![L6A, L6B, L3A, L3B, Lbl::Bcast, Lbl::ReUse] } else { vec![L6A, L6B, L3A, Lbl::Bcast, Lbl::ReUse] },
         hows: if thorough {
-            vec![How::Complete, How::ExtComplete, How::FragOn(0), How::FragOn(1), How::ExtFragOn(0), How::ExtFragOn(1), How::FailSmall, How::FailLong, How::FailPtype, How::ExtFailSmall, How::ExtFailLong, How::ExtFailHuge]
+            vec![How::Complete, How::ExtComplete, How::FragOn(0), How::FragOn(1), How::FragTight(1), How::ExtFragOn(0), How::ExtFragOn(1), How::FailSmall, How::FailLong, How::FailPtype, How::ExtFailSmall, How::ExtFailLong, How::ExtFailHuge]
         } else {
             vec![How::Complete, How::ExtComplete, How::FragOn(0), How::FragOn(1), How::ExtFragOn(0), How::FailSmall, How::FailLong, How::FailPtype, How::ExtFailSmall, How::ExtFailLong, How::ExtFailHuge]
         },
@@ -541,7 +553,7 @@ pub fn b_sys() -> BSys {
 
 pub fn run(tier: Tier) -> i32 {
     let rep = Report::new("C04", tier);
-    rep.set_rule("A: closure of the product real Encapsulator x real Decapsulator (lock-step, every successfully produced packet fed at once) under send(label in {two 6-byte, 3-byte, broadcast, explicit re-use} x how in {complete, complete via encap_ext, first fragment on id 0/1 via encap and encap_ext, fail: small buffer / PDU too long / protocol type, encap_ext fail}), zero label, continue(id) (end fragment of an open train), reset of both sides, disable, enable, enable-with-max(1,2,3,255), and receiver-side noise (rejected intermediate / end fragments of unknown ids interleaved at any point); ghost = label intended per PDU and what the wire carried; B: closure of the receiver alone under 35 packets, with two and with one storage buffer (so that start packets are also rejected for lack of storage), (complete and first fragments of every label kind incl. re-use, continuation packets of known/unknown ids, rejected and malformed start packets, padding) and reset; oracle: a resolved re-use label equals the label of the nearest preceding start/complete packet of the frame. distinct = (op, outcome)");
+    rep.set_rule("A: closure of the product real Encapsulator x real Decapsulator (lock-step, every successfully produced packet fed at once) under send(label in {two 6-byte, 3-byte, broadcast, explicit re-use} x how in {complete, complete via encap_ext, first fragment on id 0/1 via encap and encap_ext, a first fragment into a 10-byte buffer (possible only without label bytes on the wire, leaves 5 bytes), fail: small buffer / PDU too long / protocol type, encap_ext fail}), zero label, continue(id) (end fragment of an open train), reset of both sides, disable, enable, enable-with-max(1,2,3,255), and receiver-side noise (rejected intermediate / end fragments of unknown ids interleaved at any point); ghost = label intended per PDU and what the wire carried; B: closure of the receiver alone under 35 packets, with two and with one storage buffer (so that start packets are also rejected for lack of storage), (complete and first fragments of every label kind incl. re-use, continuation packets of known/unknown ids, rejected and malformed start packets, padding) and reset; oracle: a resolved re-use label equals the label of the nearest preceding start/complete packet of the frame. distinct = (op, outcome)");
     rep.assume("A: both label memories are reset at the same points; receiver storage is kept sufficient by re-provisioning delivered buffers; trains have 2 fragments");
     rep.assume("B: a start/complete packet whose label cannot be read (truncated, malformed) counts as carrying an unknown label: nothing may be resolved from before it; padding does not end the frame for the oracle (weaker than the crate, which clears its memory)");
     // the quick tier explores the same (closed) product as the thorough one: it closes in a few seconds
